@@ -105,6 +105,18 @@ CLAIMED["C19"] = {
     "design": "5 C19",
 }
 
+CLAIMED["C17"] = {
+    "text": "Prelude.tla defines every covered library function over sequences together with the callback invocations it may make; TLC "
+            "checks that the range-cursor loop models of take/drop/zip_with refine the definitions and that the algebraic laws hold for every "
+            "vector inside the bound, then exports all cases (25 functions x vectors of length <= 3 (4 thorough) over {-1,0,1,2} x callback "
+            "menu x numeric argument classes {-1,0,1,size,size+1}; scalars -5..5) with expected result, callback trace and unchanged "
+            "inputs; every case is replayed through the real prelude.",
+    "note": "Covered: for_each map filter foldl reduce sum product any_of all_of contains take take_while drop drop_while concat zip "
+            "zip_with reverse join to_string generate_range min max even odd. Not yet in the family: string/map inputs, retro, find, trim.",
+    "technique": "TLA+ functional specification (TLC checks loop refinement and laws) + exhaustive replay of TLC-exported cases",
+    "design": "5 C17",
+}
+
 PENDING_REASON = "check not built yet in this session; planned (see DESIGN.md section 8)"
 
 ALL = [f"C{i:02d}" for i in range(1, 21)]
